@@ -87,6 +87,29 @@ impl DependencyResolver {
             None
         }
     }
+
+    /// Removes the given message event, which is not necessarily the oldest among identical messages
+    /// (duplicated or corrupted messages are re-inserted under their old id behind newer ones).
+    /// Returns the id of the event that became the oldest one because of this removal, if any.
+    pub fn remove_message_by_id(
+        &mut self,
+        msg: Message,
+        src: String,
+        dst: String,
+        event_id: McEventId,
+    ) -> Option<McEventId> {
+        let ids = self.messages.get_mut(&(msg.clone(), src.clone(), dst.clone())).unwrap();
+        let pos = ids.iter().position(|id| *id == event_id).unwrap();
+        ids.remove(pos);
+        if ids.is_empty() {
+            self.messages.remove(&(msg, src, dst));
+            None
+        } else if pos == 0 {
+            Some(ids[0])
+        } else {
+            None
+        }
+    }
 }
 
 #[cfg(test)]
